@@ -4,6 +4,8 @@
 //	           <project>/<start>, config.LoadConfigFromDefaultLocations() (walks up to gqlgen.yml and chdirs there),
 //	           api.Generate + plugin/stubgen. One process per run: fresh map seed, GOMAXPROCS from the environment.
 //	-mode hash -dir <project>                     SHA-256 of every file under <project> (path <TAB> hash, sorted)
+//	-mode render -tplroot <dir> -fs dir|map -reps N -out <dir>     templates.Render on template sets (render.go)
+//	-mode find -dir <project> -reps N             Binder.FindObject for every bound type, N fresh binders (find.go)
 //
 // bin/check C18 runs `gen` repeatedly (separate processes, varying GOMAXPROCS, start directories, clean tree vs
 // tree with previous output) and requires all hash listings to agree.
@@ -95,15 +97,23 @@ func runHash(dir string) int {
 }
 
 func main() {
-	mode := flag.String("mode", "gen", "gen | hash")
+	mode := flag.String("mode", "gen", "gen | hash | render | find")
 	dir := flag.String("dir", "", "project directory")
 	start := flag.String("start", "", "sub-directory of the project to start from")
+	tplroot := flag.String("tplroot", "", "render: directory whose sub-directories are template sets")
+	fsMode := flag.String("fs", "dir", "render: dir | map")
+	reps := flag.Int("reps", 8, "render / find: repetitions inside this process")
+	out := flag.String("out", "", "render: output directory")
 	flag.Parse()
 	switch *mode {
 	case "gen":
 		os.Exit(runGen(*dir, *start))
 	case "hash":
 		os.Exit(runHash(*dir))
+	case "render":
+		os.Exit(runRender(*tplroot, *fsMode, *out, *reps))
+	case "find":
+		os.Exit(runFind(*dir, *reps))
 	}
 	os.Exit(2)
 }
